@@ -13,6 +13,17 @@
 (*  dkg     real DKGs through the public API (optionally with one party    *)
 (*          played by the harness that reveals a key off the polynomial),  *)
 (*          every subset of partial signatures aggregated and verified     *)
+(*  blag    LARGE point sets (up to 256 points, identifiers up to 65535):  *)
+(*          the moment law, reconstruction of a polynomial of degree       *)
+(*          < |S|, order independence (evaluated by the harness modulo the *)
+(*          group order, reported as booleans with the inputs) and the     *)
+(*          increment law (reported as small rationals, recomputed here)   *)
+(*  bchoose chooseKoutOfN for large (n, k): count, validity, distinctness  *)
+(*  bdeal   large dealings (real Gen) reconstructed and signed/aggregated  *)
+(*          through the public API over demanded classes of subsets        *)
+(* and, at the end, completeness: every large cell the model demands       *)
+(* (Algebra!BigCases, BigNT x DealClasses, BigChoose, BigDkg) was executed *)
+(* for both packages.                                                      *)
 (*                                                                         *)
 (* Output: VIOL (a C18 monitor is false on real behaviour), DRIFT (the     *)
 (* real code differs from the model but the monitors hold), BAD (the       *)
@@ -22,7 +33,9 @@ EXTENDS Algebra, Json
 
 CONSTANTS TraceFile,
           ModelQ,     \* field in which the expected verdict of the DKG cases is decided
-          ModelP      \* coefficients (1..ModelQ-1) of the polynomial used for that
+          ModelP,     \* coefficients handed to Algebra!VerdictPoly for that (the same as AlgebraMC's Sample[1])
+          BigSizes, RandSets, BigNT, BigDkg, BigChoose, BigQ,    \* the demanded LARGE cases, exactly as given to AlgebraMC
+          CheckCoverage  \* TRUE: every demanded large case must have been executed (FALSE for replays of single cases)
 
 Results == ndJsonDeserialize(TraceFile)
 
@@ -85,10 +98,11 @@ CheckRec(r) ==
 
 \* DKG through the public API.
 CheckDkg(r) ==
-  LET exp     == ModelVerdict(r.n, r.t, r.pos, r.off, [i \in 1..r.t |-> ModelP[i]], ModelQ)
+  LET exp     == IF r.big THEN ModelVerdictT(r.n, r.t, r.pos, r.off, VerdictPoly(ModelP, r.t, BigQ), BigQ)
+                          ELSE ModelVerdict(r.n, r.t, r.pos, r.off, VerdictPoly(ModelP, r.t, ModelQ), ModelQ)
       H       == DOMAIN r.errs
       failed  == {m \in H : r.errs[m] \/ r.panics[m]}
-      sig(x)  == x \o "/" \o r.scheme
+      sig(x)  == x \o (IF r.big THEN "-large/" ELSE "/") \o r.scheme
       where   == [n |-> r.n, t |-> r.t, pos |-> r.pos, off |-> r.off, ids |-> r.ids, err |-> r.errtxt] IN
   /\ (r.timeout \/ r.harness # "") => Bad(r, "DKG run not usable: " \o (IF r.timeout THEN "timeout " ELSE "") \o r.harness)
   /\ exp # r.expect => Bad(r, "case list and trace specification disagree on the expected verdict")
@@ -108,7 +122,69 @@ CheckDkg(r) ==
        /\ (exp = "undetectable" /\ failed # {}) =>
             Drift(r, "a deviation the model calls undetectable (t = n) was rejected")
 
+\* LARGE point sets.  Monitor: the real coefficients of S satisfy the laws that characterise interpolation at zero.
+CheckBLag(r) ==
+  LET chainsok == \A c \in DOMAIN r.chains : r.chains[c].end /\ r.chains[c].steps = ChainExpected(r.pts, r.chains[c].i)
+      good     == /\ r.panic = "" /\ Len(r.moments) = Len(r.pts) /\ \A k \in DOMAIN r.moments : r.moments[k]
+                  /\ r.nonzero /\ r.recon /\ r.permsame /\ Len(r.chains) >= 1 /\ chainsok IN
+  /\ ~PointSetOK(r.pts) => Bad(r, "not a set of ascending identifiers in 1..65535")
+  /\ ~good => Viol(r, "LagrangeLawsOnLargeSets", "lagrange-large/" \o r.pkg,
+                   [cls |-> r.cls, size |-> Len(r.pts), lo |-> r.pts[1], hi |-> SeqMax(r.pts), moments_failing |-> r.nfail,
+                    first_failing_k |-> r.firstfail, reconstructs |-> r.recon, order_independent |-> r.permsame,
+                    increment_law |-> (r.panic = "" /\ chainsok), panic |-> r.panic])
+
+\* chooseKoutOfN for large (n, k).  Monitor as for the small cases: only k-subsets of 1..n, pairwise distinct, C(n, k) of them.
+CheckBChoose(r) ==
+  LET inprop == r.kk >= 2 /\ r.kk <= r.n
+      good   == r.panic = "" /\ r.count = BinomMul(r.n, r.kk) /\ r.valid /\ r.distinct IN
+  /\ (inprop /\ ~good) => Viol(r, "ChooseCoversEveryKSubset", "choose-large/" \o r.pkg,
+                               [n |-> r.n, k |-> r.kk, count |-> r.count, want |-> BinomMul(r.n, r.kk), valid |-> r.valid,
+                                distinct |-> r.distinct, panic |-> r.panic])
+  /\ (~(inprop /\ ~good) /\ (r.panic # "" \/ ~r.lexinc \/ ~good
+                                \/ r.first # (IF r.kk > r.n THEN <<>> ELSE [j \in 1..r.kk |-> j])
+                                \/ r.last # (IF r.kk > r.n THEN <<>> ELSE [j \in 1..r.kk |-> r.n - r.kk + j]))) =>
+        Drift(r, "chooseKoutOfN(" \o r.pkg \o ") enumerates large (n, k) in another order than ChooseSeq")
+
+\* large dealings in trusted-dealer mode
+CheckBDeal(r) ==
+  /\ r.panic # "" => Viol(r, "ReconstructsDealtSecret", "reconstruct-large/" \o r.scheme, [n |-> r.n, t |-> r.t, mode |-> r.mode, panic |-> r.panic])
+  /\ r.panic = "" =>
+       /\ (Len(r.eqs) # Len(r.subs) \/ Len(r.oks) # Len(r.subs) \/ Len(r.classes) # Len(r.subs)) => Bad(r, "verdict lists do not match the subset list")
+       /\ (Len(r.eqs) = Len(r.subs) /\ Len(r.oks) = Len(r.subs) /\ Len(r.classes) = Len(r.subs)) => \A m \in DOMAIN r.subs :
+            LET sz == Len(r.subs[m]) IN
+            /\ ~DealShapeOK(r.classes[m], r.n, r.t, r.subs[m]) => Bad(r, "subset does not have the shape of its class " \o r.classes[m])
+            /\ (sz >= r.t /\ ~r.eqs[m]) => Viol(r, "ReconstructsDealtSecret", "reconstruct-large/" \o r.scheme,
+                                                 [n |-> r.n, t |-> r.t, mode |-> r.mode, class |-> r.classes[m], size |-> sz])
+            /\ (sz >= r.t /\ ~r.oks[m]) => Viol(r, "SharesAggregateToThresholdKey", "dkg-aggregate-large/" \o r.scheme,
+                                                 [n |-> r.n, t |-> r.t, pos |-> 0, dealer |-> TRUE, err |-> r.errtxt, failing |-> {<<r.classes[m], sz>>}])
+            /\ (sz < r.t /\ (r.eqs[m] \/ r.oks[m])) => Drift(r, "fewer than t shares of a large dealing reconstructed / verified")
+       /\ ~r.sharesok => Drift(r, "dealt shares are not the values of the returned polynomial at 1..n")
+       /\ r.polylen # r.t => Drift(r, "SSS.Gen returned a polynomial whose number of coefficients is not the threshold")
+
+\* completeness of the large cases: what the model demands (the same operators and constants as AlgebraMC) was executed
+Pkgs == {"bls", "ps"}
+Executed(kind) == {Results[m] : m \in {mm \in DOMAIN Results : Results[mm].k = kind}}
+Coverage(upto) ==     \* (the parameter only keeps TLC from evaluating this while it processes the constants)
+  LET lag    == {<<r.pkg, r.cls, r.pts>> : r \in Executed("blag")}
+      cho    == {<<r.pkg, r.n, r.kk>> : r \in Executed("bchoose")}
+      deal   == UNION {{<<r.scheme, r.n, r.t, r.classes[m]>> : m \in DOMAIN r.classes} : r \in Executed("bdeal")}
+      dkg    == {<<r.scheme, r.n, r.t, r.pos, r.off>> : r \in {x \in Executed("dkg") : x.big}}
+      mlag   == {<<p, b.cls, b.pts>> : p \in Pkgs, b \in BigCases(BigSizes, RandSets)} \ lag
+      mcho   == {<<p, nk[1], nk[2]>> : p \in Pkgs, nk \in BigChoose} \ cho
+      mdeal  == {<<p, nt[1], nt[2], c>> : p \in Pkgs, nt \in BigNT, c \in DealClasses} \ deal
+      mdkg   == ({<<p, nt[1], nt[2], 0, FALSE>> : p \in Pkgs, nt \in BigDkg}
+                 \cup {<<p, nt[1], nt[2], 1, o>> : p \in Pkgs, nt \in BigDkg, o \in BOOLEAN}
+                 \cup {<<p, nt[1], nt[2], nt[1], o>> : p \in Pkgs, nt \in BigDkg, o \in BOOLEAN}) \ dkg IN
+  /\ mlag # {} => PrintT(<<"BAD", ToJson([id |-> 0, what |-> "demanded large point sets not executed: " \o ToString(Cardinality(mlag))])>>)
+  /\ mcho # {} => PrintT(<<"BAD", ToJson([id |-> 0, what |-> "demanded large (n, k) not executed: " \o ToString(mcho)])>>)
+  /\ mdeal # {} => PrintT(<<"BAD", ToJson([id |-> 0, what |-> "demanded large dealing cells not executed: " \o ToString(mdeal)])>>)
+  /\ mdkg # {} => PrintT(<<"BAD", ToJson([id |-> 0, what |-> "demanded large DKG cases not executed: " \o ToString(mdkg)])>>)
+  /\ PrintT(<<"COVER", ToJson([blag |-> Cardinality(lag), bchoose |-> Cardinality(cho), bdeal |-> Cardinality(deal), bigdkg |-> Cardinality(dkg)])>>)
+
 Check(r) == CASE r.k = "choose" -> CheckChoose(r)
+              [] r.k = "blag"    -> CheckBLag(r)
+              [] r.k = "bchoose" -> CheckBChoose(r)
+              [] r.k = "bdeal"   -> CheckBDeal(r)
               [] r.k = "lag"    -> CheckLag(r)
               [] r.k = "rec"    -> CheckRec(r)
               [] r.k = "dkg"    -> CheckDkg(r)
@@ -118,5 +194,6 @@ TInit == l = 0
 TNext == /\ l < Len(Results)
          /\ l' = l + 1
          /\ Check(Results[l + 1])
+         /\ (l + 1 = Len(Results) /\ CheckCoverage) => Coverage(l + 1)
          /\ (l + 1 = Len(Results)) => PrintT(<<"END", ToJson([n |-> Len(Results)])>>)
 =============================================================================
